@@ -45,6 +45,20 @@ package scen
 // and be exactly the K nearest where the precondition holds, under crawl i's
 // assignment, whatever earlier crawls and earlier look-ups saw. No rule id is
 // new: the same clauses are evaluated, the generated space is wider.
+//
+// "For every ... address assignment" also covers addresses that carry no IP at
+// all: DNS names (/dns, /dns4, /dns6, /dnsaddr). An IP group is a set of IPs
+// (c16Groups), so such an address lies in none. Drawn choice "addr-kinds": none
+// / 2 in 8 / 4 in 8 of the peers advertise a DNS name next to their IP addresses
+// and count in the groups of the latter only (ip-group-limit, gcp-nearest). A
+// crawled peer whose recorded addresses ALL lack an IP - or that has none - is
+// in no IP group, cannot make any group "hold more crawled peers than that
+// limit", and is a crawled peer like any other: gcp-nearest wants it listed
+// when it is among the K nearest, with the limit set as well as with it
+// disabled. Such peers enter a crawl result only through an address change
+// while the crawl reports them (drawn choice "addr-change-while-reported",
+// c16_addrchange.go, which also says how the oracle treats the ambiguity).
+// Again no rule id is new.
 
 import (
 	"context"
@@ -172,8 +186,47 @@ func c16Groups(addrs []ma.Multiaddr) []string {
 // addresses. With maxPerGroup > 0 no IP group is given to more than
 // maxPerGroup peers (so a diversity limit >= maxPerGroup can never bite);
 // with maxPerGroup <= 0 groups are crowded on purpose.
-func c16AssignAddrs(u *simnet.Universe, rng *subRng, maxPerGroup int) {
-	c16AssignSome(u, rng, maxPerGroup, nil)
+//
+// nonIP (0..8, of 8; the scenarios draw 0, 2, 4) is the share of peers that
+// advertise, next to their IP addresses, an address WITHOUT an IP: a DNS name
+// (/dns, /dns4, /dns6, /dnsaddr - what AutoTLS and hosted nodes announce). Such
+// an address lies in no IP group (c16Groups skips it, as peerdiversity has
+// nothing to key on); the peer is in the groups of its IP addresses only. 0:
+// every address has an IP (the space generated before). Peers that advertise
+// DNS names only, or nothing, are not generated HERE: the repository's
+// public-address table filter (not part of C16) wants an IP address at the
+// moment the crawl reports the peer, so the crawl does not keep them. They get
+// into a crawl result through c16AddrChange (a peer re-announcing itself while
+// the crawl reports it).
+func c16AssignAddrs(u *simnet.Universe, rng *subRng, maxPerGroup, nonIP int) {
+	c16AssignSome(u, rng, maxPerGroup, nonIP, nil)
+}
+
+// c16DNSAddr returns an address without an IP for peer i (j-th address).
+func c16DNSAddr(rng *subRng, i, j int) ma.Multiaddr {
+	switch rng.Intn(4) {
+	case 0:
+		return ma.StringCast(fmt.Sprintf("/dns4/n%d-%d.example.org/tcp/4001", i, j))
+	case 1:
+		return ma.StringCast(fmt.Sprintf("/dns6/n%d-%d.example.net/tcp/443/ws", i, j))
+	case 2:
+		return ma.StringCast(fmt.Sprintf("/dnsaddr/n%d-%d.example.com", i, j))
+	default:
+		return ma.StringCast(fmt.Sprintf("/dns/n%d-%d.example.io/udp/4001/quic-v1", i, j))
+	}
+}
+
+// c16MixedAddrs: some of the peer's addresses lie in an IP group, some in none.
+func c16MixedAddrs(addrs []ma.Multiaddr) bool {
+	with, without := 0, 0
+	for _, a := range addrs {
+		if len(c16Groups([]ma.Multiaddr{a})) > 0 {
+			with++
+		} else {
+			without++
+		}
+	}
+	return with > 0 && without > 0
 }
 
 // c16MoveAddrs gives every peer for which move(i) holds new addresses, drawn
@@ -181,12 +234,12 @@ func c16AssignAddrs(u *simnet.Universe, rng *subRng, maxPerGroup int) {
 // other IP groups); the other peers keep theirs. The maxPerGroup guarantee of
 // c16AssignAddrs holds for the resulting assignment as a whole. It returns the
 // number of peers whose set of IP groups changed.
-func c16MoveAddrs(u *simnet.Universe, rng *subRng, maxPerGroup int, move func(i int) bool) int {
+func c16MoveAddrs(u *simnet.Universe, rng *subRng, maxPerGroup, nonIP int, move func(i int) bool) int {
 	before := make([]string, len(u.Peers))
 	for i, p := range u.Peers {
 		before[i] = strings.Join(c16Groups(p.Addrs), "|")
 	}
-	c16AssignSome(u, rng, maxPerGroup, move)
+	c16AssignSome(u, rng, maxPerGroup, nonIP, move)
 	changed := 0
 	for i, p := range u.Peers {
 		if strings.Join(c16Groups(p.Addrs), "|") != before[i] {
@@ -197,7 +250,7 @@ func c16MoveAddrs(u *simnet.Universe, rng *subRng, maxPerGroup int, move func(i 
 }
 
 // c16AssignSome assigns new addresses to the peers selected by move (nil: all).
-func c16AssignSome(u *simnet.Universe, rng *subRng, maxPerGroup int, move func(i int) bool) {
+func c16AssignSome(u *simnet.Universe, rng *subRng, maxPerGroup, nonIP int, move func(i int) bool) {
 	v4first := []int{8, 45, 101, 12 /* legacy class A: grouped by /8 */}
 	v6pfx := []string{"2001:4860", "2606:4700", "2a02:6b8", "2a0e:b107", "2003:e1"}
 	spread := len(u.Peers) + 2
@@ -226,10 +279,22 @@ func c16AssignSome(u *simnet.Universe, rng *subRng, maxPerGroup int, move func(i
 		if rng.Intn(6) == 0 {
 			n++
 		}
+		// which of the n addresses is a DNS name (none: dnsAt < 0)
+		dnsAt := -1
+		if nonIP > 0 && rng.Intn(8) < nonIP {
+			if n < 2 {
+				n = 2
+			}
+			dnsAt = rng.Intn(n)
+		}
 		var addrs []ma.Multiaddr
 		mine := map[string]bool{}
 		for j := 0; j < n; j++ {
 			var a ma.Multiaddr
+			if j == dnsAt {
+				addrs = append(addrs, c16DNSAddr(rng, i, j))
+				continue
+			}
 			if rng.Intn(10) < 6 {
 				a = ma.StringCast(fmt.Sprintf("/ip4/%d.%d.%d.%d/tcp/4001", v4first[rng.Intn(len(v4first))], rng.Intn(spread), rng.Intn(4), 1+i%250))
 			} else {
@@ -255,7 +320,7 @@ func c16AssignSome(u *simnet.Universe, rng *subRng, maxPerGroup int, move func(i
 			}
 			addrs = append(addrs, a)
 		}
-		if len(addrs) == 0 {
+		if len(c16Groups(addrs)) == 0 {
 			// a /16 of its own
 			a := ma.StringCast(fmt.Sprintf("/ip4/150.%d.0.1/tcp/4001", i%250))
 			for _, g := range c16Groups([]ma.Multiaddr{a}) {
@@ -279,6 +344,10 @@ type c16Crawl struct {
 	// held for each found peer when the crawl reported it. nil: the peers'
 	// addresses never change during the run, simnet.Peer.Addrs is the assignment.
 	Addrs map[peer.ID][]ma.Multiaddr
+	// Alt: peers whose peerstore entry was replaced while this crawl reported
+	// them, with the addresses that replaced those in Addrs (c16_addrchange.go).
+	// The crawl found such a peer at the one or the other.
+	Alt map[peer.ID][]ma.Multiaddr
 }
 
 // newC16Crawl snapshots the current addresses of the found peers.
@@ -1042,6 +1111,9 @@ type crawlSpec struct {
 	// REPLACE what the host's peerstore holds for the peer (the peer is found at
 	// its current addresses only). nil: simnet.Peer.Addrs are added, as before.
 	Addrs map[peer.ID][]ma.Multiaddr
+	// Change (optional, needs stubCrawler.PS): address changes that are pending
+	// while the peer concerned is reported (c16_addrchange.go).
+	Change map[peer.ID]*c16AddrChange
 }
 
 type stubCall struct {
@@ -1059,8 +1131,9 @@ type stubCall struct {
 // it, so the crawl finds the peer at exactly these addresses) and a
 // connection, which is what a real crawl leaves behind.
 type stubCrawler struct {
-	S *sim.Sim
-	H *simhost.Host
+	S  *sim.Sim
+	H  *simhost.Host
+	PS *c16Peerstore // optional: the peerstore the client under test reads (crawlSpec.Change)
 
 	mu    sync.Mutex
 	calls []*stubCall
@@ -1092,6 +1165,12 @@ func (c *stubCrawler) Run(ctx context.Context, seeds []*peer.AddrInfo, ok crawle
 			c.H.Peerstore().AddAddrs(p.ID, p.Addrs, peerstore.PermanentAddrTTL)
 		}
 		c.H.Net().SetConnected(p.ID, true)
+		if ch := spec.Change[p.ID]; ch != nil && c.PS != nil {
+			c.PS.Arm(ch)
+			ok(p.ID, nil)
+			c.PS.Disarm()
+			continue
+		}
 		ok(p.ID, nil)
 	}
 	for _, p := range spec.Fail {
